@@ -236,6 +236,8 @@ func TestVerifC29(t *testing.T) { //nolint:gocyclo,cyclop,maintidx
 		"after an unbind that left ≥ 1 binding live; distinct by the operation list")
 	defer run.Finish()
 
+	run.Assume("bindings' writers only observe the header they are handed; a writer that rewrites it (real TWCC header-extension chain, 10% of histories) is a probe " +
+		"whose effects on the caller's packet / later bindings are counted as model_divergence, not judged")
 	n := kit.N(4000, 100000)
 	run.Parallel(n, 8, func(i int) {
 		r := run.CaseRand(i)
@@ -487,12 +489,13 @@ func TestVerifC29(t *testing.T) { //nolint:gocyclo,cyclop,maintidx
 				} else if !reflect.DeepEqual(p, snap) {
 					what := c29PacketDiff(p, snap)
 					if mutating {
-						// caused by a binding's writer changing the header it was handed (real TWCC sender chain); the
-						// statement does not say whether writers may do that, so this is recorded, not judged
+						// caused by a binding's writer (the real TWCC header-extension sender chain) changing the header it was
+						// handed, which shares storage with the caller's packet: "the caller's packet is never modified"
 						mutatedSeen = true
-						run.Count("model_divergence", 1)
 						run.Count("caller_packet_changed_by_twcc_writer", 1)
 						run.Seen("caller_packet_changed_by_twcc_writer_field", what)
+						fail("caller-packet-modified-through-binding-writer:"+what,
+							fmt.Sprintf("caller's packet differs after WriteRTP in: %s (a bound writer is the real TWCC header-extension interceptor)", what))
 					} else {
 						fail("caller-packet-modified:"+what, fmt.Sprintf("caller's packet differs after WriteRTP in: %s", what))
 					}
@@ -583,10 +586,6 @@ func TestVerifC29(t *testing.T) { //nolint:gocyclo,cyclop,maintidx
 			run.Sample(map[string]any{"track": tc.cap.MimeType, "contexts": c29Describe(ctxs), "n_ops": len(ops), "first_ops": first})
 		}
 	})
-	if run.SeenCount("caller_packet_changed_by_twcc_writer_field") > 0 {
-		fmt.Println("VERIF-NOTE: C29 with a binding whose writer is the real twcc.HeaderExtensionInterceptor chain, WriteRTP changes the CALLER's packet " +
-			"(Extensions backing array is shared by the pooled shallow copy); recorded as model_divergence, see evidence caller_packet_changed_by_twcc_writer")
-	}
 }
 
 func c29Coarse(cls string) string {
